@@ -1,0 +1,49 @@
+//! Verification hooks, compiled only with the cargo feature `verif-hooks` (off by default).
+//!
+//! They turn silent memory errors of the unchecked accessors and of the raw trusted-length
+//! collectors into marked, unwinding panics that a monitor can catch and attribute.
+//! With the feature off none of this code exists and the crate behaves as shipped.
+
+/// Byte used to poison freshly allocated uninitialised output buffers (hook H2).
+pub const POISON_BYTE: u8 = 0xA5;
+
+/// H3: bounds check in front of an unchecked element access.
+#[inline]
+#[track_caller]
+pub fn check_idx(idx: usize, len: usize, site: &'static str) {
+    if idx >= len {
+        panic!("VERIF-HOOK H3 site={site} idx={idx} len={len}");
+    }
+}
+
+/// H3: bounds check in front of an unchecked slice access.
+#[inline]
+#[track_caller]
+pub fn check_range(start: usize, end: usize, len: usize, site: &'static str) {
+    if start > end || end > len {
+        panic!("VERIF-HOOK H3 site={site} start={start} end={end} len={len}");
+    }
+}
+
+/// H1: an item arrived although the announced number of items was already written.
+#[cold]
+#[track_caller]
+pub fn trusted_len_overrun(declared: usize) -> ! {
+    panic!("VERIF-HOOK H1 declared={declared} actual>{declared}");
+}
+
+/// H1: the iterator ended before the announced number of items was produced.
+#[cold]
+#[track_caller]
+pub fn trusted_len_underrun(declared: usize, actual: usize) -> ! {
+    panic!("VERIF-HOOK H1 declared={declared} actual={actual}");
+}
+
+/// H2: fill `len` elements of type `T` starting at `ptr` with the poison byte.
+///
+/// # Safety
+/// `ptr` must be valid for writes of `len * size_of::<T>()` bytes.
+#[inline]
+pub unsafe fn poison<T>(ptr: *mut T, len: usize) {
+    unsafe { std::ptr::write_bytes(ptr as *mut u8, POISON_BYTE, len * std::mem::size_of::<T>()) }
+}
